@@ -234,7 +234,7 @@ func c16(r *rep.Run) {
 	max := 6
 	r.SetBudget(150e9)
 	if r.Thorough() {
-		max = 7
+		max = 8
 		r.SetBudget(1800e9)
 	}
 	r.Rule = "every and/or/not/if/compare/registered-operator tree up to the node bound with pairwise distinct variables, plus wide and/or nodes of 2..40 operands (flat and produced by flattening) with tied costs; cost maps: every single entry (each variable, each operator name, the `variable` and `operator` class defaults) at every rung of the ladder {-100, 0, 0.5, 5, 1e3, 1e9}, alone and next to one other priced name, and EVERY pair of maps differing in that one entry (lo < hi); other optimisations all off and all on. Oracles on the parsed Dump trees: (a) Reordering-on tree == Reordering-off tree up to permutation of and/or operand lists only; (b) siblings of identical shape after replacing variables by their price keep source order (stability, no cost formula needed); (c) raising an entry never moves an operand mentioning it ahead of a sibling that does not; (d) at 1e9 every mentioning operand follows every non-mentioning one; (e) siblings not mentioning the entry keep their relative order across the two maps. non-trivial = (program, map) pairs in which Reordering actually changed an order"
